@@ -93,7 +93,10 @@ async fn connect_to_endpoint(addr: SocketAddr, config: ClientConfig) -> Result<C
         .parse::<SocketAddr>()
         .map_err(ParseEndpointAddressError::InvalidAddress)?;
 
+    #[cfg(not(selium_verif))]
     let mut endpoint = Endpoint::client(endpoint_addr)?;
+    #[cfg(selium_verif)]
+    let mut endpoint = crate::verif::client_endpoint(endpoint_addr)?;
     endpoint.set_default_client_config(config);
     let connection = endpoint
         .connect(addr, "localhost")
